@@ -161,6 +161,14 @@ func (k *c13) compare(code, origin string) {
 	default:
 		k.c.R.Fail(fmt.Sprintf("%s:rejects-valid:%s", cc, origin), fmt.Sprintf("%s code %q satisfies the national rule but is rejected: %s", cc, code, msg), map[string]any{"country": cc, "code": code, "origin": origin, "error": msg})
 	}
+	// the verdict on the code as entered (normalised, then validated) must be the
+	// oracle's verdict on what normalisation produced
+	if pg, n, pp := pipelineValid(cc, code); pp == nil && n != code && oracleUnsure(cc, n) == "" {
+		k.cnt("normalisation_rewrote_candidate")
+		if pg != k.sc.Valid(n) {
+			k.c.R.Fail(fmt.Sprintf("%s:pipeline-verdict:%s", cc, origin), fmt.Sprintf("%s code %q normalises to %q, which the library judges valid=%v and the national rule valid=%v", cc, code, n, pg, k.sc.Valid(n)), map[string]any{"country": cc, "code": code, "normalized": n})
+		}
+	}
 	// same verdict when the identity sits inside a party
 	if pg, pp := realValidInParty(cc, code); pp == nil && pg != got {
 		k.c.R.Fail(cc+":party-verdict-differs", fmt.Sprintf("%s code %q: identity valid=%v but party valid=%v", cc, code, got, pg), map[string]any{"country": cc, "code": code})
@@ -240,6 +248,67 @@ func (k *c13) variants(code string, rng *rand.Rand) {
 	}
 }
 
+// pipeline: the verdict on a code as entered, i.e. normalised and then validated.
+func pipelineValid(cc, code string) (ok bool, normalised string, pan any) {
+	n, p := realNormalize(cc, code)
+	if p != nil {
+		return false, "", p
+	}
+	got, _, p2 := realValid(cc, n)
+	return got, n, p2
+}
+
+// frShortForms: French numbers may be entered as the bare 9-digit SIREN, which
+// normalisation completes with the VAT key when its own (Luhn) check digit
+// agrees; a SIREN with a wrong check digit must not become an accepted code.
+func (k *c13) frShortForms(rng *rand.Rand, n int) {
+	judge := func(siren, origin string) {
+		want := taxid.LuhnOK(siren)
+		got, norm, pan := pipelineValid("FR", siren)
+		if pan != nil {
+			k.cnt("panics")
+			return
+		}
+		k.cnt("fr_siren_pipeline_verdicts")
+		switch {
+		case got && !want:
+			k.c.R.Fail("FR:accepts-invalid:siren-short-form:"+origin, fmt.Sprintf("FR SIREN %q has a wrong check digit but is accepted once normalised (to %q)", siren, norm), map[string]any{"country": "FR", "code": siren, "normalized": norm, "origin": origin})
+		case !got && want:
+			k.c.R.Fail("FR:rejects-valid:siren-short-form:"+origin, fmt.Sprintf("FR SIREN %q satisfies its check digit but is rejected after normalisation (to %q)", siren, norm), map[string]any{"country": "FR", "code": siren, "normalized": norm, "origin": origin})
+		case got && digitsOnly(norm)[len(digitsOnly(norm))-9:] != siren:
+			k.c.R.Fail("FR:normalize:digits-altered", fmt.Sprintf("FR SIREN %q normalises to %q", siren, norm), map[string]any{"country": "FR", "code": siren, "normalized": norm})
+		}
+		k.c.R.Case(true, ev.Hash("FR-siren", siren))
+	}
+	for i := 0; i < n; i++ {
+		var d []byte
+		for j := 0; j < 8; j++ {
+			d = append(d, byte('0'+rng.IntN(10)))
+		}
+		siren := ""
+		for c := byte('0'); c <= '9'; c++ {
+			if taxid.LuhnOK(string(d) + string(c)) {
+				siren = string(d) + string(c)
+			}
+		}
+		if siren == "" || strings.Trim(siren, "0") == "" {
+			continue
+		}
+		judge(siren, "generated-valid")
+		for _, e := range taxid.SingleDigitEdits(siren) {
+			judge(e, "single-digit-edit")
+		}
+		for _, e := range taxid.AdjacentTranspositions(siren) {
+			judge(e, "transposition")
+		}
+		// formatted like people write it
+		f := "FR " + siren[:3] + " " + siren[3:6] + " " + siren[6:]
+		if got, norm, _ := pipelineValid("FR", f); !got {
+			k.c.R.Fail("FR:rejects-valid:siren-short-form:formatted", fmt.Sprintf("FR SIREN %q (valid) is rejected after normalisation (to %q)", f, norm), map[string]any{"country": "FR", "code": f})
+		}
+	}
+}
+
 // beOldStyle writes one in three 0-prefixed Belgian numbers in the pre-2005
 // nine-digit notation (the same number without its leading zero).
 func beOldStyle(cc, code string, rng *rand.Rand) string {
@@ -314,6 +383,9 @@ func runC13(c *Ctx) {
 			if n == 0 && part == 0 {
 				c.R.Sample(map[string]any{"country": cc, "valid_code": code, "rule": sc.Note})
 			}
+		}
+		if cc == "FR" {
+			k.frShortForms(rng, nValid/chunks/4+1)
 		}
 		for a, b := range k.local {
 			c.R.Count(a, b)
